@@ -13,6 +13,7 @@ import (
 	"fmt"
 	"os"
 	"strings"
+	"time"
 
 	"github.com/dolthub/go-mysql-server/sql"
 
@@ -74,12 +75,20 @@ func (r *runner) dbEvent(tabs []*sqlgen.TableDef) event {
 }
 
 // planClass names how the engine produces the order: the fingerprint class the property speaks of.
-func planClass(db *eng.DB, s *eng.Session, text string) string {
+func planClass(db *eng.DB, s *eng.Session, text string) (class string) {
+	defer func() {
+		if r := recover(); r != nil { // a panic of the analyzer is an outcome of Exec already
+			class = "none"
+		}
+	}()
 	node, err := db.Engine.AnalyzeQuery(s.Ctx(), text)
 	if err != nil {
 		return "none"
 	}
 	p := sql.DebugString(s.Ctx(), node)
+	if os.Getenv("C04_PLAN") != "" { // triage aid
+		fmt.Println(p)
+	}
 	switch {
 	case strings.Contains(p, "TopN("):
 		return "topn"
@@ -124,13 +133,48 @@ func selfJoin(f *From) bool {
 	return false
 }
 
+// execTimed runs one statement under a watchdog: an engine call that does not return is the outcome
+// "hang"; the driver records it, reports and exits, because the stuck goroutine cannot be stopped.
+func execTimed(s *eng.Session, q string) eng.Result {
+	ch := make(chan eng.Result, 1)
+	go func() { ch <- s.Exec(q) }()
+	select {
+	case res := <-ch:
+		return res
+	case <-time.After(stmtTimeout):
+		return eng.Result{Kind: "hang", Msg: fmt.Sprintf("no result after %s", stmtTimeout), Rows: [][]Value{}}
+	}
+}
+
+var stmtTimeout = 15 * time.Second
+
+func (r *runner) finish(mode string) {
+	r.w.Close()
+	r.rep.Extra["result_kinds"] = r.kinds
+	r.rep.Extra["plan_classes"] = r.classes
+	r.rep.Extra["plan_classes_nontrivial"] = r.ntClass
+	r.rep.Extra["nontrivial_reasons"] = r.why
+	r.rep.Extra["shapes"] = r.shapes
+	fmt.Fprintf(os.Stderr, "%s: %d cases %v classes %v\n", mode, r.rep.Cases, r.kinds, r.classes)
+	r.rep.Emit()
+}
+
 func (r *runner) runQuery(db *eng.DB, s *eng.Session, id int, q *Query, shape string) {
 	text := (&Renderer{}).Query(q)
 	if showSQL {
 		fmt.Println(text)
 	}
-	res := s.Exec(text)
+	res := execTimed(s, text)
 	ev := event{Ev: "q", ID: id, Q: q, Res: &res, SQL: text, Tags: append(Tags(q), extraTags(q)...), Shape: shape}
+	if res.Kind == "hang" {
+		ev.Plan = "none"
+		r.w.Write(ev)
+		r.rep.Cases++
+		r.kinds[res.Kind]++
+		r.rep.Extra["aborted"] = fmt.Sprintf("case %d did not return: %s", id, text)
+		r.finish("aborted")
+		os.Exit(0)
+	}
 	ev.Plan = planClass(db, s, text)
 	r.rep.Cases++
 	r.kinds[res.Kind]++
@@ -244,14 +288,7 @@ func main() {
 	default:
 		vio.Fatal("unknown mode %s", *mode)
 	}
-	w.Close()
-	r.rep.Extra["result_kinds"] = r.kinds
-	r.rep.Extra["plan_classes"] = r.classes
-	r.rep.Extra["plan_classes_nontrivial"] = r.ntClass
-	r.rep.Extra["nontrivial_reasons"] = r.why
-	r.rep.Extra["shapes"] = r.shapes
-	fmt.Fprintf(os.Stderr, "%s: %d cases %v classes %v\n", *mode, r.rep.Cases, r.kinds, r.classes)
-	r.rep.Emit()
+	r.finish(*mode)
 }
 
 // ---------------------------------------------------------------- generator
@@ -307,12 +344,23 @@ func (g *gen) orderOver(q *Query, nKeys int, sameDir bool) {
 }
 
 // the alias form is used most of the time where ORDER BY <ordinal> is a recorded engine defect
-// (SELECT DISTINCT; self-joins), so that other defects stay visible there
+// (SELECT DISTINCT; self-joins; LEFT/RIGHT joins planned as merge joins), so that other defects
+// stay visible there
+func outerJoin(f *From) bool {
+	if f == nil {
+		return false
+	}
+	if f.K == "join" && (f.Jt == "left" || f.Jt == "right") {
+		return true
+	}
+	return outerJoin(f.L) || outerJoin(f.R)
+}
+
 func (g *gen) ordForm(q *Query) {
 	if os.Getenv("C04_ORDINALS") != "" { // hunting aid: always the ordinal form (consumes the same random numbers)
 		defer func() { q.OrdAlias = false }()
 	}
-	if q.Distinct || selfJoin(q.From) {
+	if q.Distinct || selfJoin(q.From) || outerJoin(q.From) {
 		q.OrdAlias = g.chance(0.85)
 	} else {
 		q.OrdAlias = g.chance(0.5)
